@@ -9,11 +9,11 @@ import (
 	"encoding/json"
 	"errors"
 	"fmt"
+	"strings"
 	"sync"
 
 	"github.com/apache/arrow-go/v18/arrow"
 	"github.com/apache/arrow-go/v18/arrow/array"
-	"github.com/apache/arrow-go/v18/arrow/memory"
 
 	"github.com/Query-farm/vgi-rpc-go/vgirpc"
 )
@@ -30,6 +30,8 @@ type Script struct {
 	Meta  bool       `json:"meta,omitempty"`
 	// PosVal makes exchange turns emit their 1-based turn number instead of input+1000.
 	PosVal bool `json:"posval,omitempty"`
+	// RecMeta journals the metadata keys the exchange handler sees as "meta:k1,k2".
+	RecMeta bool `json:"recmeta,omitempty"`
 }
 
 // Encode renders the script parameter.
@@ -185,7 +187,9 @@ func batchOf(v int64, rows int) arrow.RecordBatch {
 	if rows <= 0 {
 		rows = 1
 	}
-	b := array.NewInt64Builder(memory.DefaultAllocator)
+	// allocate from the framework's allocator: ownership passes to the collector, and the
+	// framework must release it on every path (visible in LeakCheckSummary)
+	b := array.NewInt64Builder(vgirpc.VerifAllocator())
 	defer b.Release()
 	for i := 0; i < rows; i++ {
 		b.Append(v)
@@ -260,8 +264,11 @@ func (s *ProdState) OnCancel(context.Context, *vgirpc.CallContext) error {
 type ExchState struct{ Core }
 
 // Exchange implements vgirpc.ExchangeState.
-func (s *ExchState) Exchange(_ context.Context, in arrow.RecordBatch, out *vgirpc.OutputCollector, _ *vgirpc.CallContext) error {
+func (s *ExchState) Exchange(_ context.Context, in arrow.RecordBatch, out *vgirpc.OutputCollector, cc *vgirpc.CallContext) error {
 	Note(s.Script.SID, "exchange")
+	if s.Script.RecMeta && cc != nil {
+		Note(s.Script.SID, "meta:"+strings.Join(cc.InputMetadata.Keys(), ","))
+	}
 	o := s.outcome("emit")
 	var a int64
 	if in.NumCols() > 0 && in.NumRows() > 0 {
